@@ -22,7 +22,7 @@ type gen struct {
 var allLeafKinds = []string{"base", "base", "plain", "retry", "fb", "retryfb", "func", "func", "func"}
 var payKinds = []string{"int", "str", "float", "map", "slice", "ptr", "struct", "nil", "nilptr", "nilmap", "nilslice"}
 var failKinds = []string{"sentinel", "wrapped", "custom", "wrapcustom"}
-var actionAlphabet = []string{"default", "", "a", "ab", "b"}
+var actionAlphabet = []string{"default", "", "a", "ab", "b", "Default"} // "Default" differs from the default action by case only
 
 func pick[T any](r *rand.Rand, xs []T) T { return xs[r.IntN(len(xs))] }
 
@@ -217,7 +217,7 @@ func (g *gen) leaf(nv int) *NodeSpec {
 func (g *gen) flowOver(members []int, density float64) *NodeSpec {
 	f := &NodeSpec{ID: len(g.sc.Nodes), Kind: "flow", Start: pick(g.r, members)}
 	for _, from := range members {
-		for _, a := range []string{"default", "a", "ab", "b"} {
+		for _, a := range []string{"default", "a", "ab", "b", "Default"} {
 			if !g.chance(density) {
 				continue
 			}
@@ -303,7 +303,7 @@ func (g *gen) lateConnects() {
 			if !g.chance(0.25) {
 				to = pick(g.r, ms)
 			}
-			f.LateConns = append(f.LateConns, Conn{From: pick(g.r, ms), Action: pick(g.r, []string{"default", "a", "ab", "b"}), To: to})
+			f.LateConns = append(f.LateConns, Conn{From: pick(g.r, ms), Action: pick(g.r, []string{"default", "a", "ab", "b", "Default"}), To: to})
 		}
 	}
 }
@@ -793,9 +793,12 @@ func genC08(prop, tier string, r *rand.Rand) *Scn {
 	if r.IntN(2) == 0 {
 		conc = r.IntN(5)
 	}
-	ni := r.IntN(4*conc + 9)
+	if r.IntN(12) == 0 {
+		conc = -1 - r.IntN(2) // a non-positive limit means sequential
+	}
+	ni := r.IntN(4*max(conc, 0) + 9)
 	if r.IntN(3) == 0 {
-		ni = r.IntN(conc + 3)
+		ni = r.IntN(max(conc, 0) + 3)
 	}
 	// the limit is a property of the pool, not of the error mode: a third of the
 	// batches run in stop-on-error mode (without failing items, so that every
@@ -1141,7 +1144,7 @@ func genC19(prop, tier string, r *rand.Rand) *Scn {
 		case 1:
 			s.Param, s.Val = "wait", pick(r, []int{0, 10, 20, 50})
 		case 2:
-			s.Param, s.Val = "conc", r.IntN(5)
+			s.Param, s.Val = "conc", r.IntN(6)-1
 		default:
 			s.Param, s.Val = "stop", r.IntN(2)
 		}
